@@ -344,14 +344,15 @@ theorem validate_clear {g : GoMap} (hv : validateHeaderParameters g false = true
     validateHeaderParameters (g.map clearEntry) false = true := by
   rw [C13.validate_iff] at hv ⊢
   obtain ⟨hok, hall⟩ := hv
-  refine ⟨?_, ?_⟩
-  · rw [labelsOK_iff_normLabels, normLabels_clear, ← labelsOK_iff_normLabels]
+  have hok' : LabelsOK (g.map clearEntry) := by
+    rw [labelsOK_iff_normLabels, normLabels_clear, ← labelsOK_iff_normLabels]
     exact hok
+  refine ⟨hok', ?_⟩
   · intro e' he'
     obtain ⟨e, he, rfl⟩ := List.mem_map.mp he'
     obtain ⟨l, h1, h2⟩ := hall e he
     refine ⟨l, h1, ?_⟩
-    rw [C13.checkParam_congr _ g (fun x hx => hasLabel_clear g x hx)]
+    rw [C13.checkParam_congr _ g (fun x hx => hasLabel_clear g x hx) hok'.1 hok.1]
     exact checkParam_clearV g false l e.2 h2
 
 theorem ensureIV_clear (p u : GoMap) : ensureIV p (u.map clearEntry) = ensureIV p u := by
